@@ -10,6 +10,18 @@ NOT_APPLICABLE = {
 
 # id -> (engine, level category, level text, level note, technique, design_ref)
 CHECKS = {
+    "C34": ("World", "exploration",
+            "Network-world simulation: a real RatchetSecret sender chain and a real DecryptionRatchet receiver connected by a datagram pool that reorders, loses, duplicates and forges generations within and beyond the windows (ooo_tolerance, max_forward in 0..8 and larger); a RatchetModel (head, windows, skipped-unused set) predicts every call: in-window fresh => exactly the sender's key and nonce, at most once per generation; otherwise the documented error.",
+            "Synchronous code, no executor involved; the simulated network and choice stream are the whole machinery. Trusted: the crypto primitives.",
+            "deterministic simulation with fault injection: reorder / loss / duplication / forged generations against a window model", "§4 C34"),
+    "C36": ("World", "exploration",
+            "Network-world simulation: 2-4 replicas with real SecretBundleState receive the same secrets (colliding timestamps, extreme timestamps) through insert / extend / merge in different orders, with duplicates, removals, CBOR reloads and the wall-clock seam behind / equal / ahead of the latest at generate; after every operation latest() must be the max by (timestamp, id) of a per-replica model, equal-content replicas agree, and a generated secret is strictly later than the current latest (or generate refuses).",
+            "Wall clock through the interposed CLOCK_REALTIME (asserted to be the clock the crate reads at the start of every run).",
+            "deterministic simulation with fault injection: delivery-order and clock faults against a max-by-(timestamp,id) model", "§4 C36"),
+    "C38": ("World", "exploration",
+            "World simulation of one KeyRegistryState under a controlled wall clock: bundles with lifetimes around now (valid, expiring, expired, not yet valid, degenerate) and corrupted signatures are added, the clock jumps forward and back between add and query; adding a certainly-invalid bundle must fail, and key_bundle() (long-term and one-time) must never return a bundle that is outside its lifetime at query time or was not correctly signed.",
+            "Lifetime end points (now == not_before / not_after) are accepted either way because the property does not fix them. Signature bit 255 malleability of XEdDSA is not counted as corruption.",
+            "deterministic simulation with fault injection: clock jumps and corrupted bundles against recorded lifetimes", "§4 C38"),
     "C08": ("StepExec", "exploration",
             "Differential simulation: random command sequences (transactions ending in commit / rollback / dropped permit, inserts, deletes, payload deletions, prunes, dirty restarts of a file database) against real SqliteStore and the in-memory reference model, every log query (latest entry, heights over arbitrary id sets incl. empty / unknown / repeated, ranged entries and sizes with boundary after/until values) compared call by call; panics are violations.",
             "One client, one call in flight. Empty range in get_log_size may be None or (0,0). Trusted: SQLite/sqlx.",
